@@ -15,7 +15,7 @@
      a datagram can be at the same time a well-formed STUN message and a DNS query).
 
    Generic lift: Proofs/LiftTcp.v. *)
-From MS Require Import Proofs.Tactics Stun Dns Proto L2 Spec.View Spec.RefDec Spec.TcpRef Spec.RefStun Spec.AppView
+From MS Require Import Proofs.Tactics Proofs.Pending Stun Dns Proto L2 Spec.View Spec.RefDec Spec.TcpRef Spec.RefStun Spec.AppView
      Spec.History Spec.EnvOk Spec.C15
      Proofs.Pipeline Proofs.ViewLemmas Proofs.C06 Proofs.TcpState Proofs.C07 Proofs.Lift Proofs.LiftTcp
      Proofs.C15Model Proofs.C15Handler Proofs.C15Proto Proofs.C15Foreign.
@@ -89,11 +89,9 @@ Proof.
       destruct Hsame as (_ & _ & _ & _ & _ & S6 & _). rewrite S6. reflexivity.
     + (* identified as something else *)
       pose proof Hid as Hid0.
-      unfold proto_repl_tcp in Hpr. unfold tcp_first_id in Hid.
-      change (t_proto tcb_new =? PROTO_NONE) with true in Hpr. cbv iota in Hpr.
-      change (t_smack tcb_new) with BASE_STATE in Hpr.
+      rewrite Pending.proto_repl_tcp_first in Hpr. unfold tcp_first_id in Hid.
       destruct (search_next (e_proto_tbl E) BASE_STATE p) as [[id st] n]. subst id.
-      cbn [id_of t_proto] in Hpr.
+      cbv zeta in Hpr. cbn [id_of t_proto] in Hpr.
       match type of Hpr with context [dispatch E clk ?c ?j ?t p] =>
         destruct (dispatch E clk c j t p) as [[[c2 t2] o2]|s] eqn:Hd end; cbn [bind] in Hpr; [|discriminate].
       inversion Hpr; subst ci' o2. clear Hpr.
@@ -107,11 +105,9 @@ Proof.
         inversion Hident; subst i. discriminate.
       * intros m r Hm _ -> Hresp. rewrite (Hq m r Hm eq_refl) in Hresp. discriminate.
   - (* not identified: nothing comes back *)
-    unfold proto_repl_tcp in Hpr. unfold tcp_first_id in Hid.
-    change (t_proto tcb_new =? PROTO_NONE) with true in Hpr. cbv iota in Hpr.
-    change (t_smack tcb_new) with BASE_STATE in Hpr.
+    rewrite Pending.proto_repl_tcp_first in Hpr. unfold tcp_first_id in Hid.
     destruct (search_next (e_proto_tbl E) BASE_STATE p) as [[id st] n] eqn:Hs. subst id.
-    cbn [id_of t_proto] in Hpr. unfold dispatch in Hpr.
+    cbv zeta in Hpr. cbn [id_of t_proto] in Hpr. unfold dispatch in Hpr.
     change (NO_MATCH =? PROTO_HTTP) with false in Hpr. change (NO_MATCH =? PROTO_STUN) with false in Hpr.
     change (NO_MATCH =? PROTO_SSH) with false in Hpr. change (NO_MATCH =? PROTO_GHOST) with false in Hpr.
     change (NO_MATCH =? PROTO_RPC_TCP) with false in Hpr. change (NO_MATCH =? PROTO_RPC_UDP) with false in Hpr.
